@@ -1,7 +1,7 @@
 ---------------------------- MODULE DeepLiftOps ----------------------------
 (* C04 / C05: exact (rational) semantics of a sequential network and of the DeepLIFT rescale rule, written from the
    definitions -- NOT from tangermeme's code:
-     forward      Conv1d (stride, dilation, zero padding), Linear, Flatten, AvgPool1d, MaxPool1d (non-overlapping), and
+     forward      Conv1d (stride, dilation, zero padding), Linear, Flatten, AvgPool1d, MaxPool1d (non-overlapping; padding, ceil_mode), and
                   element-wise activations given as exact functions
      multipliers  linear layers propagate through their transpose; an activation multiplies the incoming multiplier by
                   (g(zx) - g(zr)) / (zx - zr), or by g'(zx) where zx = zr (torch's derivative at kinks)
@@ -53,7 +53,12 @@ Linear(l, t) == T1([o \in 1..Len(l.W) |-> RAdd(Wt(l, l.b[o]), RSum([i \in 1..Len
 AvgPool(l, t) == LET Lout == Len(t.v[1]) \div l.size IN
     T2([c \in 1..Len(t.v) |-> [q \in 1..Lout |-> RDiv(RSum([j \in 1..l.size |-> t.v[c][(q - 1) * l.size + j]]), RInt(l.size))]])
 \* MaxPool1d(kernel = stride = size, padding = pad): padded positions never win (they are -infinity), windows do not overlap
-MaxPool(l, t) == LET Lin == Len(t.v[1]) Lout == (Lin + 2 * l.pad - l.size) \div l.size + 1 IN
+\* ceil = 1 (ceil_mode): a last, partial window is kept when it starts inside the input or the left padding
+MaxPoolLen(l, Lin) ==
+    IF l.ceil = 1 THEN LET c == (Lin + 2 * l.pad - l.size + l.size - 1) \div l.size + 1 IN
+                       IF (c - 1) * l.size >= Lin + l.pad THEN c - 1 ELSE c
+    ELSE (Lin + 2 * l.pad - l.size) \div l.size + 1
+MaxPool(l, t) == LET Lin == Len(t.v[1]) Lout == MaxPoolLen(l, Lin) IN
     T2([c \in 1..Len(t.v) |-> [q \in 1..Lout |->
         LET ps == { p \in 1..Lin : p >= (q - 1) * l.size - l.pad + 1 /\ p <= (q - 1) * l.size - l.pad + l.size }
             first == CHOOSE p \in ps : \A r \in ps : p <= r IN
